@@ -441,10 +441,11 @@ func scenario(h *vh.H, ci int, r vh.R) {
 			}
 			switch kind {
 			case "slot not advancing":
-				bad.Header.Slot = types.TimeSlot(parent.tau - r.IntN(2))
-				if bad.Header.Slot < 1 {
+				sl := parent.tau - r.IntN(2)
+				if sl < 1 { // (judged in int: a genesis at slot 0 has no earlier slot, and 0-1 as a TimeSlot is the far future)
 					continue
 				}
+				bad.Header.Slot = types.TimeSlot(sl)
 				resign(&bad.Header, int(bad.Header.AuthorIndex), int(p.tip.tau))
 			case "wrong parent state root":
 				bad.Header.ParentStateRoot[r.IntN(32)] ^= 1 << uint(r.IntN(8))
@@ -529,7 +530,7 @@ func scenario(h *vh.H, ci int, r vh.R) {
 			_ = root
 			if expectReject {
 				if ierr == nil {
-					fail("an invalid block was accepted: "+kind, map[string]any{"block": b, "trace": fmt.Sprint(trace)})
+					fail("an invalid block was accepted: "+kind, map[string]any{"block": b, "trace": fmt.Sprint(trace), "slot": bad.Header.Slot, "parent_slot": parent.tau})
 					return
 				}
 				h.Inc("rejections")
@@ -545,6 +546,38 @@ func scenario(h *vh.H, ci int, r vh.R) {
 						return
 					}
 				}
+				// (c) a child of the rejected block: the block that would be valid on the head, re-parented onto the rejected block and
+				// sealed again. A node that never saw the rejected block does not know that parent and refuses (checked on a
+				// fresh node of its own at the first few occurrences per case); so must this node.
+				if r.IntN(3) == 0 {
+					if hx, herr := hash.ComputeBlockHeaderHash(bad.Header); herr == nil && hx != parent.hash {
+						child := p.blk
+						child.Header.Parent = hx
+						resign(&child.Header, int(child.Header.AuthorIndex), p.tip.tau)
+						var cerr error
+						if pn, msg, st := vh.Guard(func() { _, cerr = svc.ImportBlock(child) }); pn {
+							fail("import panicked on a child of a rejected block", map[string]any{"block": b, "kind": kind, "panic": msg, "stack": st})
+							return
+						}
+						h.Inc("children_of_rejected_blocks")
+						trace = append(trace, fmt.Sprintf("%d:child-of-rejected=%v", b, cerr == nil))
+						if cerr == nil {
+							// witness for the replay file: what a node that never saw the rejected block answers
+							fresh := "accepted"
+							if _, e := svc.SetState(w.genHdr, w.genKV.DeepCopy(), nil); e == nil {
+								for _, q := range chain[:b] {
+									svc.ImportBlock(q.blk)
+								}
+								if _, e := svc.ImportBlock(child); e != nil {
+									fresh = "rejected: " + e.Error()
+								}
+							}
+							fail("a block whose parent is a rejected block was accepted (a node that never saw the rejected block does not know that parent)",
+								map[string]any{"block": b, "rejected_kind": kind, "rejected_error": ierr.Error(), "fresh_node": fresh, "trace": fmt.Sprint(trace)})
+							return
+						}
+					}
+				}
 				// (b) retry of the same rejected block: rejected again
 				if r.Bool() {
 					var ierr2 error
@@ -555,6 +588,14 @@ func scenario(h *vh.H, ci int, r vh.R) {
 					h.Inc("retries_of_rejected_blocks")
 					if ierr2 == nil {
 						fail("the retry of a rejected block was accepted", map[string]any{"block": b, "kind": kind, "first_error": ierr.Error(), "trace": fmt.Sprint(trace)})
+						return
+					}
+					// (not for the guarantee with two bad signatures: its signatures are checked by concurrent workers and either
+					// worker's complaint - wrong core assignment, bad signature - may be reported)
+					if ierr2.Error() != ierr.Error() && kind != "guarantee with bad signatures" {
+						// the first answer is the one a node that never saw the block gives; another reason the second time means the
+						// failed attempt left something behind in the state the retry ran on
+						fail("the retry of a rejected block is rejected for another reason than the first time", map[string]any{"block": b, "kind": kind, "first_error": ierr.Error(), "second_error": ierr2.Error(), "trace": fmt.Sprint(trace)})
 						return
 					}
 				}
